@@ -1,6 +1,7 @@
 package harness
 
 import (
+	"fmt"
 	"sort"
 	"strings"
 	"testing"
@@ -144,7 +145,12 @@ func c14Gen(t *rapid.T) C14Case {
 		c.Note = "valid-walk"
 		if chance(t, "mutate", 45) && len(els) > 0 {
 			i := uniform(t, "mutpos", len(els))
-			switch uniform(t, "mutkind", 12) {
+			switch uniform(t, "mutkind", 13) {
+			case 12: // an ASCII letter replaced by a non-ASCII letter that case mapping/folding sends back to it
+				if u, ok := unifold(t, els[i]); ok {
+					els[i] = u
+					c.Note = "unicode-fold-letter"
+				}
 			case 0: // 17 empties in total
 				for empties < 17 {
 					els = append(els[:i:i], append([]string{""}, els[i:]...)...)
@@ -264,22 +270,47 @@ func c14Check(c C14Case, rec *Recorder) *Disc {
 	allowed := normNames(c.Names)
 	lines := Strs(c.Lines)
 	req := Req{Method: "OPTIONS", Hdr: []HV{{hOrigin, Vals("https://example.com")}, {hACRM, Vals("GET")}, {hACRH, c.Lines}}}
-	resp := Do(m.Wrap, req, nil)
-	rec.Eval(1)
-	var got bool
-	switch {
-	case resp.Status == 204 && eq1(resp.Hdr[hACAO], "https://example.com"):
-		got = true
-	case resp.Status == 403 && len(resp.Hdr[hACAO]) == 0:
-	default:
-		return discf("allowed %q lines %q: odd preflight response %s", allowed, lines, abbrev(resp.Sig(), 300))
+	wrap := oneWrap(m.Wrap)
+	// judge serves one preflight carrying the given field lines and compares with the reference reader
+	judge := func(ls []Val, when string) (bool, *Disc) {
+		lines := Strs(ls)
+		r := req
+		r.Hdr = []HV{{hOrigin, Vals("https://example.com")}, {hACRM, Vals("GET")}, {hACRH, ls}}
+		resp := Do(wrap, r, nil)
+		rec.Eval(1)
+		var got bool
+		switch {
+		case resp.Status == 204 && eq1(resp.Hdr[hACAO], "https://example.com"):
+			got = true
+		case resp.Status == 403 && len(resp.Hdr[hACAO]) == 0:
+		default:
+			return false, discf("allowed %q lines %q (%s): odd preflight response %s", allowed, lines, when, abbrev(resp.Sig(), 300))
+		}
+		want := acrhApproved(allowed, lines)
+		if got != want {
+			return false, discf("allowed names %q, ACRH field lines %q (%s): reference reader says approved=%v, middleware says %v (%s)", allowed, lines, when, want, got, c.Note)
+		}
+		if got && !eqStrs(resp.Hdr[hACAH], lines) {
+			return false, discf("allowed %q lines %q (%s): approved but ACAH %q does not echo the lines", allowed, lines, when, resp.Hdr[hACAH])
+		}
+		return got, nil
 	}
-	want := acrhApproved(allowed, lines)
-	if got != want {
-		return discf("allowed names %q, ACRH field lines %q: reference reader says approved=%v, middleware says %v (%s)", allowed, lines, want, got, c.Note)
+	// the reader has no memory: each field line on its own first (same wrapped handler), then all of them
+	// together, then once more
+	if len(c.Lines) >= 2 {
+		rec.Class("lines-individually-first")
+		for i := range c.Lines {
+			if _, d := judge(c.Lines[i:i+1], fmt.Sprintf("line %d alone, before the full request", i)); d != nil {
+				return d
+			}
+		}
 	}
-	if got && !eqStrs(resp.Hdr[hACAH], lines) {
-		return discf("allowed %q lines %q: approved but ACAH %q does not echo the lines", allowed, lines, resp.Hdr[hACAH])
+	got, d := judge(c.Lines, "all lines")
+	if d != nil {
+		return d
+	}
+	if _, d := judge(c.Lines, "all lines, second time"); d != nil {
+		return d
 	}
 	// classification
 	names := 0
@@ -302,7 +333,7 @@ func c14Check(c C14Case, rec *Recorder) *Disc {
 	} else {
 		rec.Class("rejected")
 		switch c.Note {
-		case "exactly-17-empties", "two-ows-left", "two-ows-right", "three-byte-whitespace-element", "duplicate", "swapped", "one-byte-over-longest-name", "arbitrary-byte-at-element-edge":
+		case "exactly-17-empties", "two-ows-left", "two-ows-right", "three-byte-whitespace-element", "duplicate", "swapped", "one-byte-over-longest-name", "arbitrary-byte-at-element-edge", "unicode-fold-letter":
 			rec.NonTrivial("no", strings.Join(allowed, ","), strings.Join(lines, "\n"))
 		}
 	}
@@ -316,7 +347,7 @@ func c14Check(c C14Case, rec *Recorder) *Disc {
 	}
 	if len(sub) > 0 {
 		for _, variant := range [][]string{{strings.Join(sub, ",")}, sub, {strings.Join(sub, ", ")}} {
-			r := Do(m.Wrap, Preflight("https://example.com", "GET", variant...), nil)
+			r := Do(wrap, Preflight("https://example.com", "GET", variant...), nil)
 			rec.Eval(1)
 			if r.Status != 204 || !eqStrs(r.Hdr[hACAH], variant) {
 				return discf("allowed %q: browser-shaped list %q is not approved (status %d, ACAH %q)", allowed, variant, r.Status, r.Hdr[hACAH])
@@ -329,9 +360,9 @@ func c14Check(c C14Case, rec *Recorder) *Disc {
 func c14Prop() Prop[C14Case] {
 	return Prop[C14Case]{ID: "C14", Gen: c14Gen, Check: c14Check,
 		Rule: "generator: allowed-name sets of 1-40 names (prefixes/extensions of each other, mixed case in the configuration) x 0-4 ACRH field lines: 55% an increasing walk over the allowed names with <=1 OWS per side and <=14 empty elements, " +
-			"of which 45% get exactly one boundary mutation (17th / 16th empty element, 2 OWS on one side, 3-byte whitespace element, duplicate, swapped neighbours, element one byte over the longest name, upper case, one arbitrary byte 0x00-0xFF glued to an edge of an element); 45% free-form elements " +
+			"of which 45% get exactly one boundary mutation (17th / 16th empty element, 2 OWS on one side, 3-byte whitespace element, duplicate, swapped neighbours, element one byte over the longest name, upper case, one arbitrary byte 0x00-0xFF glued to an edge of an element, one letter replaced by Kelvin sign / dotted I / long s); 45% free-form elements " +
 			"(allowed names unsorted/repeated, prefix/extension/upper-case variants, runs of 0-20 empties, elements of length maxNameLen-1..+4 of name bytes or OWS, junk over {a b x - , SP HTAB NUL}) each with 0-3 OWS per side. " +
-			"Oracle: debug-off preflight approved (204 + ACAH echo) iff the reference list reader approves; browser-shaped sublists (joined, one per line, comma-space) always approved. " +
+			"Oracle: debug-off preflight approved (204 + ACAH echo) iff the reference list reader approves - for each field line served alone first, then for all lines together, twice, all through one wrapped handler (the reader has no memory); browser-shaped sublists (joined, one per line, comma-space) always approved. " +
 			"non-trivial = approved with >=2 names / padding / several lines / empties, or rejected solely because of one planted boundary mutation; distinct by (allowed set, lines).",
 		Assumptions: []string{"checked through the public API: status 204 vs 403 of a debug-off preflight from an allowed origin with a safelisted method is the approval bit"}}
 }
